@@ -1,6 +1,7 @@
 package udp
 
 import (
+	"encoding/binary"
 	"math/rand"
 
 	"github.com/google/gopacket"
@@ -127,6 +128,19 @@ func (f *PacketFiller) Fill(packet gopacket.SerializeBuffer, r *scan.Request) (e
 	if err = udp.SetNetworkLayerForChecksum(ip); err != nil {
 		return err
 	}
+
+	defer func() {
+		// RFC 768: a computed checksum of zero is transmitted as all ones,
+		// an all zero checksum field means that no checksum was generated
+		if err == nil && udp.Checksum == 0 {
+			// IPv4 header (IHL 5) + offset of the checksum field in the UDP header
+			offset := 20 + 6
+			if !f.vpnMode {
+				offset += 14
+			}
+			binary.BigEndian.PutUint16(packet.Bytes()[offset:], 0xffff)
+		}
+	}()
 
 	opt := gopacket.SerializeOptions{ComputeChecksums: true}
 	if ip.Length == 0 {
